@@ -327,6 +327,20 @@ func gen(g *common.Gen) {
 				sf = fmt.Sprintf(" sendfail=%d", common.Pick(r, []int{0, 1, 2, 3, 4, 6, 12}))
 				g.Stat("consumer-send-fails")
 			}
+			if r.Chance(1, 5) {
+				// the CONSUMING node holds an older version of this object in its own store (it
+				// published one itself earlier): the newest published version must still be fetched
+				maxv := uint64(0)
+				for _, q := range pubs {
+					if q.name == p.name && q.ver != "now" {
+						maxv = max(maxv, common.Atou(q.ver))
+					}
+				}
+				if maxv >= 1 {
+					g.Op("cput name=%s ver=%d size=%d seed=%d", p.name, uint64(r.Intn(int(min(maxv, 1<<30)))), common.Pick(r, []int{1, 100, 8000, 8001, 20000}), seed+100000)
+					g.Stat("consumer-holds-older-version")
+				}
+			}
 			g.Op("consume name=%s script=%s cap=%d%s", nm, genScript(r, g, nseg), capx, sf)
 			g.Stat("consume")
 			if capx > 0 {
